@@ -165,6 +165,140 @@ def refs_child(job):
             out.append({"label": label, "ok": got == exp and type(got) is type(exp), "got": repr(got)[:120]})
         except Exception as e:  # noqa: BLE001
             out.append({"label": label, "ok": False, "got": f"{type(e).__name__}: {e}"[:160]})
+    out.extend(nested_refs(job))
+    return out
+
+
+NESTED_SRC = """
+from __future__ import annotations
+import dataclasses, typing
+@dataclasses.dataclass
+class Pt:
+    x: int
+    y: int
+PtAlias = typing.TypeAliasType("PtAlias", Pt)
+PtStr = typing.TypeAliasType("PtStr", "Pt")
+PtNew = typing.NewType("PtNew", Pt)
+Uid = typing.NewType("Uid", int)
+UidAlias = typing.TypeAliasType("UidAlias", Uid)
+UidAlias2 = typing.TypeAliasType("UidAlias2", UidAlias)
+Names = typing.TypeAliasType("Names", list[str])
+@dataclasses.dataclass
+class Tree:
+    value: int
+    children: Forest
+Forest = typing.TypeAliasType("Forest", list[Tree])
+@dataclasses.dataclass
+class TreeP:
+    value: int
+    children: list[TreeP]
+@dataclasses.dataclass
+class Chain:
+    value: int
+    next: typing.Optional[ChainRef] = None
+ChainRef = typing.NewType("ChainRef", Chain)
+@dataclasses.dataclass
+class ChainP:
+    value: int
+    next: typing.Optional[ChainP] = None
+"""
+
+
+def shape(o):
+    """Reduce a result to plain data with class names erased (the wrapped and plain recursive models are different classes)."""
+    import dataclasses
+    if dataclasses.is_dataclass(o) and not isinstance(o, type):
+        return {"$obj": {f.name: shape(getattr(o, f.name)) for f in dataclasses.fields(o)}}
+    if isinstance(o, (list, tuple)):
+        return [type(o).__name__, [shape(i) for i in o]]
+    if isinstance(o, dict):
+        return {k: shape(v) for k, v in o.items()}
+    return [type(o).__name__, repr(o)]
+
+
+def nested_refs(seed):
+    """A reference (ForwardRef with module, or the named object itself) that names a class / alias / NewType / chain of them,
+    placed at every composite position: the routines must behave like those of the plain type; plus recursive models whose
+    back-edge is spelled through an alias or a NewType."""
+    import random
+    import sys
+    import types
+    import typing
+    import typelib
+    m = types.ModuleType("vm_c11_n")
+    sys.modules["vm_c11_n"] = m
+    exec(compile(NESTED_SRC, "vm_c11_n.py", "exec"), m.__dict__)
+    r = random.Random(seed)
+
+    def ref(name):
+        return typing.ForwardRef(name, module="vm_c11_n")
+    pt_raw, pt_val = {"x": "1", "y": 2}, m.Pt(1, 2)
+    names = {  # name -> (plain type, wire input, valid value)
+        "Pt": (m.Pt, pt_raw, pt_val), "PtAlias": (m.Pt, pt_raw, pt_val), "PtStr": (m.Pt, pt_raw, pt_val), "PtNew": (m.Pt, pt_raw, pt_val),
+        "Uid": (int, "7", 7), "UidAlias": (int, "7", 7), "UidAlias2": (int, "8", 8), "Names": (list[str], [1, "b"], ["1", "b"]),
+    }
+    positions = {
+        "root": (lambda t: t, lambda x: x),
+        "list": (lambda t: list[t], lambda x: [x, x]),
+        "mapval": (lambda t: dict[str, t], lambda x: {"k": x}),
+        "tuple": (lambda t: tuple[str, t], lambda x: ("a", x)),
+        "vartuple": (lambda t: tuple[t, ...], lambda x: (x,)),
+        "optional": (lambda t: typing.Optional[t], lambda x: x),
+        "union-none-first": (lambda t: typing.Union[None, t], lambda x: x),
+        "list-of-dict": (lambda t: list[dict[str, t]], lambda x: [{"k": x}]),
+    }
+    junk = ["zz", None, [1], {"x": "q"}, 3.5]
+
+    def obs(fn):
+        import warnings
+        with warnings.catch_warnings():
+            warnings.simplefilter("ignore")
+            try:
+                return ["ok", shape(fn())]
+            except Exception as e:  # noqa: BLE001
+                return ["err", enc.err_class(e)]
+    out = []
+    for name, (plain, raw, val) in names.items():
+        for how, w in (("ForwardRef", ref(name)), ("object", getattr(m, name))):
+            for pos, (mk, mkv) in positions.items():
+                label = f"{how} {name} at {pos}"
+                tw, tp = mk(w), mk(plain)
+                diffs = []
+                for what, fw, fp in (
+                    ("unmarshal", lambda: typelib.unmarshal(tw, mkv(raw)), lambda: typelib.unmarshal(tp, mkv(raw))),
+                    ("marshal", lambda: typelib.marshal(mkv(val), t=tw), lambda: typelib.marshal(mkv(val), t=tp)),
+                    ("codec", lambda: typelib.codec(tw).decode(typelib.codec(tw).encode(mkv(val))),
+                     lambda: typelib.codec(tp).decode(typelib.codec(tp).encode(mkv(val)))),
+                    ("unmarshal-junk", lambda: [obs(lambda j=j: typelib.unmarshal(tw, mkv(j))) for j in junk],
+                     lambda: [obs(lambda j=j: typelib.unmarshal(tp, mkv(j))) for j in junk]),
+                ):
+                    a, b = obs(fw), obs(fp)
+                    if a != b:
+                        diffs.append(f"{what}: wrapped {json.dumps(a)[:90]} vs plain {json.dumps(b)[:90]}")
+                out.append({"label": label, "ok": not diffs, "got": "; ".join(diffs)[:300]})
+    depth = r.randint(2, 5)
+    tree = {"value": "0", "children": []}
+    for i in range(depth):
+        tree = {"value": str(i + 1), "children": [tree, {"value": i, "children": []}]}
+    chain = None
+    for i in range(depth):
+        chain = {"value": str(i), "next": chain}
+    for label, tw, tp, raw in (
+        ("recursive model, back-edge through an alias of list[Tree] (root = the alias)", m.Forest, list[m.TreeP], [tree]),
+        ("recursive model, back-edge through an alias of list[Tree] (root = the class)", m.Tree, m.TreeP, tree),
+        ("recursive model, back-edge through an alias (root = list[Tree])", list[m.Tree], list[m.TreeP], [tree]),
+        ("recursive model, back-edge through a NewType (root = the class)", m.Chain, m.ChainP, chain),
+        ("recursive model, back-edge through a NewType (root = the NewType)", m.ChainRef, m.ChainP, chain),
+        ("recursive model, back-edge through a NewType (root = dict of it)", dict[str, m.Chain], dict[str, m.ChainP], {"k": chain}),
+    ):
+        a, b = obs(lambda: typelib.unmarshal(tw, raw)), obs(lambda: typelib.unmarshal(tp, raw))
+        diffs = [] if a == b else [f"unmarshal: wrapped {json.dumps(a)[:140]} vs plain {json.dumps(b)[:140]}"]
+        if a[0] == "ok" and b[0] == "ok":
+            va, vb = typelib.unmarshal(tw, raw), typelib.unmarshal(tp, raw)
+            ma, mb = obs(lambda: typelib.marshal(va, t=tw)), obs(lambda: typelib.marshal(vb, t=tp))
+            if ma != mb:
+                diffs.append(f"marshal: wrapped {json.dumps(ma)[:140]} vs plain {json.dumps(mb)[:140]}")
+        out.append({"label": label, "ok": not diffs, "got": "; ".join(diffs)[:300]})
     return out
 
 
@@ -226,14 +360,14 @@ def explore(ctx):
                 else:
                     res.count("oracle:transparent")
     core.import_typelib()
-    for out in iso.map_isolated(refs_child, [0]):
+    for out in iso.map_isolated(refs_child, [ctx.seed]):
         if isinstance(out, dict) and "crash" in out:
             raise RuntimeError(f"harness: {out}")
         for o in out:
             res.case({"reference": o["label"]}, True)
             if not o["ok"]:
                 res.failures.append({"what": f"reference {o['label']} did not behave like the type it names: {o['got']}",
-                                     "input": {"reference": o["label"]}})
+                                     "input": {"reference": o["label"], "seed": ctx.seed}})
             else:
                 res.count("oracle:reference-ok")
     return res
@@ -247,8 +381,8 @@ def replay(failure):
     inp = failure["input"]
     if "reference" in inp:
         core.import_typelib()
-        out = iso.map_isolated(refs_child, [0])[0]
-        print(json.dumps(out, indent=1))
+        out = iso.map_isolated(refs_child, [inp.get("seed", 0)])[0]
+        print(json.dumps([o for o in out if o["label"] == inp["reference"]], indent=1))
         return any(not o["ok"] for o in out if o["label"] == inp["reference"])
     print(json.dumps({k: inp[k] for k in inp if k != "prog"}, indent=1)[:2000])
     job = {"prog": inp["prog"], "ops": [{"op": "rt", "ty": inp["ty"], "val": inp["val"]}]}
